@@ -338,7 +338,7 @@ pub fn run_c18(ctx: &mut Ctx) {
                 ctx.case_begin(&json!({"family": family, "i": i}));
             }
             if family == "dynamic" {
-                c18_dynamic(ctx, &mut rng, None);
+                crate::report::guarded(ctx, |ctx| c18_dynamic(ctx, &mut rng, None));
                 continue;
             }
             let mut case = gen_case(family, i, ctx.seed, &lim);
@@ -352,13 +352,15 @@ pub fn run_c18(ctx: &mut Ctx) {
                 continue;
             }
             ctx.count(&format!("cases/{}/{}", family, if case.abs.is_connected() { "connected" } else { "several-components" }));
-            if case.pres.is_usize() {
-                if let Ok(b) = build_usize(&case.pres) {
+            crate::report::guarded(ctx, |ctx| {
+                if case.pres.is_usize() {
+                    if let Ok(b) = build_usize(&case.pres) {
+                        c18_static(ctx, &case, &b, &mut rng, None);
+                    }
+                } else if let Ok(b) = build_string(&case.pres) {
                     c18_static(ctx, &case, &b, &mut rng, None);
                 }
-            } else if let Ok(b) = build_string(&case.pres) {
-                c18_static(ctx, &case, &b, &mut rng, None);
-            }
+            });
         }
     }
 }
@@ -574,13 +576,15 @@ pub fn run_c19(ctx: &mut Ctx) {
             let kind = *rng.pick(&["iccma", "iccma-dup", "apx", "nwl-u", "nwl-s"]);
             case.pres = crate::present::present(&case.abs, kind, &mut rng);
             ctx.count(&format!("families/{}", family));
-            if case.pres.is_usize() {
-                if let Ok(b) = build_usize(&case.pres) {
+            crate::report::guarded(ctx, |ctx| {
+                if case.pres.is_usize() {
+                    if let Ok(b) = build_usize(&case.pres) {
+                        c19_eval(ctx, &case, &b);
+                    }
+                } else if let Ok(b) = build_string(&case.pres) {
                     c19_eval(ctx, &case, &b);
                 }
-            } else if let Ok(b) = build_string(&case.pres) {
-                c19_eval(ctx, &case, &b);
-            }
+            });
         }
     }
 }
